@@ -217,6 +217,12 @@ macro_rules! reenter_impl {
                 self.value += 1;
                 server.at(path.to_string(), Leaf(2)).await.map_err(|e| zbus::fdo::Error::Failed(e.to_string()))
             }
+            /// a `&mut self` handler that does something else first (here: lets others run) and then registers
+            async fn add_mut_later(&mut self, path: &str, #[zbus(object_server)] server: &ObjectServer) -> zbus::fdo::Result<bool> {
+                self.value += 1;
+                crate::sched::yield_now().await;
+                server.at(path.to_string(), Leaf(4)).await.map_err(|e| zbus::fdo::Error::Failed(e.to_string()))
+            }
             /// the common `Close()` pattern: a handler that removes its own object
             async fn close(&mut self, #[zbus(object_server)] server: &ObjectServer, #[zbus(header)] hdr: zbus::message::Header<'_>) -> zbus::fdo::Result<bool> {
                 self.value += 1;
@@ -293,8 +299,12 @@ pub fn c30_reenter_case(src: &mut Src, obs: &mut Obs) -> CaseResult {
     let mut kinds = vec![];
     for i in 0..n {
         // (a handler that removes its own object comes last in the burst when it comes at all)
-        let kind = if i + 1 == n && src.chance(60) { 7 + src.below(2) } else { src.below(7) };
+        let kind = if i + 1 == n && src.chance(60) { 7 + src.below(2) } else { src.below(11) };
+        let kind = if i + 1 != n && (kind == 7 || kind == 8) { 9 } else { kind };
         let m = match kind {
+            // calls that walk the tree (and look into every interface on the way) while handlers run
+            9 => peer.call("/c30", Some("org.freedesktop.DBus.Introspectable"), "Introspect", vec![]),
+            10 => peer.call("/c30", Some(iface), "AddMutLater", vec![RVal::S(format!("/c30/l{i}"))]),
             7 => peer.call("/c30", Some(iface), "Close", vec![]),
             8 => peer.call("/c30", Some(iface), "CloseRo", vec![]),
             0 => peer.call("/c30", Some(iface), "Add", vec![RVal::S(format!("/c30/n{i}"))]),
@@ -305,7 +315,7 @@ pub fn c30_reenter_case(src: &mut Src, obs: &mut Obs) -> CaseResult {
             5 => peer.call("/c30", Some("org.freedesktop.DBus.Properties"), "Set", vec![RVal::S(iface.into()), RVal::S("Knob".into()), RVal::V(Box::new((vcore::refmodel::sig::RSig::U, RVal::U(10 + i as u32))))]),
             _ => peer.call("/c30", Some("org.freedesktop.DBus.Properties"), "GetAll", vec![RVal::S(iface.into())]),
         };
-        kinds.push(["Add", "Del", "Emit", "AddMut", "Get(Probe)", "Set(Knob)", "GetAll", "Close", "CloseRo"][kind]);
+        kinds.push(["Add", "Del", "Emit", "AddMut", "Get(Probe)", "Set(Knob)", "GetAll", "Close", "CloseRo", "Introspect", "AddMutLater"][kind]);
         peer.send(&m);
         calls.push(m);
     }
